@@ -8,7 +8,7 @@ CONSTANTS CharWs, TypeWs, DictNs, NDictsSet, CSets, TSets, WSets, Surplus, NTags
 VARIABLES cw, tw, dn, nd, cs, ts, ws, phase, ntags
 
 CPool == << <<97>>, <<12354>>, <<97, 12354>>, <<12354, 97>>, <<97, 12354, 97>>, <<97, 97>> >>
-TPool == << <<72>>, <<82>>, <<72, 82>>, <<82, 72, 72>>, <<75>>, <<68, 79>> >>
+TPool == << <<72>>, <<82>>, <<72, 82>>, <<82, 72, 72>>, <<75>>, <<68, 79>>, <<72, 4>>, <<4>>, <<75, 72>> >>
 WPool == << <<97>>, <<12354, 97>>, <<97, 12354, 97>>, <<97, 97, 97, 97>> >>
 Sel(pool, mask) == LET ids == {i \in 1..Len(pool) : BitSet(mask, i - 1)} IN [k \in 1..Cardinality(ids) |-> pool[SortedSeq(ids)[k]]]
 
